@@ -337,7 +337,7 @@ class NameServer(object):
     def remove(self, name=None, prefix=None, regex=None):
         """Remove a registration. returns the number of items removed."""
         with self.lock:
-            if name and name in self.storage and name != core.NAMESERVER_NAME:
+            if name is not None and name in self.storage and name != core.NAMESERVER_NAME:
                 del self.storage[name]
                 return 1
             if prefix:
